@@ -8,8 +8,25 @@
    that holds is proved for the clean fragment `clean_hist` of Spec.v. *)
 From Coq Require Import List NArith ZArith Bool.
 Import ListNotations.
-From NV Require Import Gen.MetaConsts Meta.SMap Meta.Model Meta.Spec Meta.CounterProofs.
+From NV Require Import Gen.MetaConsts Meta.SMap Meta.Model Meta.Spec Meta.CounterProofs Meta.TypedProofs.
 Local Open Scope N_scope.
+
+(* First sentence of the property, for every history of the clean fragment (no batches):
+   the per-type counters (physical, root, tombstone, lock, link) of every container equal the
+   number of such objects its metadata indexes (zero for a removed container).  The premise
+   clean_hist also contains "the state fits 64-bit counters", so no counter has wrapped. *)
+Theorem C02_typed_counters_exact_partial : forall h,
+  forallb (fun o => negb (is_batch o)) h = true -> clean_hist h = true ->
+  forall c b, In (c, b) (cnrs (run h)) -> typed_ok b = true.
+Proof. exact typed_counters_exact. Qed.
+
+(* non-vacuity: a clean history with every kind of operation, counters non-trivial *)
+Definition ex_clean : list op :=
+  [ OPut 1 (reg 1 5); OPut 1 (reg 2 7); OPut 1 (tomb 3 1); OPut 1 (Obj 4 (hs TLock 0 (Some 2)) None);
+    OMark 1 [2] MRedundant; OEpoch 3; ORevive 1 1; ODelete 1 [2]; OPut 2 (reg 1 1); OInhumeCnr 2 ].
+Example C02_example_clean :
+  (clean_hist ex_clean = true) /\ (forallb (fun o => negb (is_batch o)) ex_clean = true) /\ (counters_ok (run ex_clean) = true) /\ (c_phy (view_counters (run ex_clean)) = 2).
+Proof. vm_compute. auto. Qed.
 
 Theorem C02_counters_refuted_put_on_marked_id :
   exists h, first_unclean 0 state0 h = Some (2%nat, 3) /\ counters_ok (run h) = false.
@@ -31,6 +48,7 @@ Theorem C02_counters_refuted_relations :
   exists h, first_unclean 0 state0 h = Some (2%nat, 2) /\ counters_ok (run h) = false.
 Proof. exists w_relations. split; apply refuted_relations. Qed.
 
+Print Assumptions C02_typed_counters_exact_partial.
 Print Assumptions C02_counters_refuted_put_on_marked_id.
 Print Assumptions C02_counters_refuted_tombstone_target.
 Print Assumptions C02_counters_refuted_tombstone_unstored.
